@@ -66,6 +66,15 @@ def e2e_cmd(bindir, wd):
 
 
 def e2e_cases(prop, tier, seed):
+    global SPLIT_LONG
+    SPLIT_LONG = True
+    try:
+        return _e2e_cases(prop, tier, seed)
+    finally:
+        SPLIT_LONG = False
+
+
+def _e2e_cases(prop, tier, seed):
     """scenarios for the real program: no info requests of their own (the marker is one), timeouts
     by real elapsing time (timeout 1 second), reloads by SIGUSR1"""
     rng = core.rng_for(seed, "proto-e2e-" + prop)
@@ -587,6 +596,11 @@ def _ordinals(ops):
     return out
 
 
+# long lines may reach the daemon in two reads; only in the families whose judges read each case on
+# its own (the cross-case judges of C04, C07, C08 and C17 insert lines between ops)
+SPLIT_LONG = False
+
+
 def render_schedule(rng, scripts, chunks=False):
     """interleave scripts preserving per-client order; returns op lines"""
     ops = []
@@ -610,7 +624,7 @@ def render_schedule(rng, scripts, chunks=False):
             ops.append(inl("%d C %s %s 0::1 6667" % (cid, e[1], e[2])))
         elif e[0] == "line":
             raw = ("%d %s" % (cid, e[1])).encode("latin-1") + b"\n"
-            if len(raw) > 300 and rng.random() < 0.5:
+            if SPLIT_LONG and len(raw) > 300 and rng.random() < 0.5:
                 # a long line that reaches the daemon in two reads (seeded change C06-7 threw away
                 # 512 pending bytes without a line end and read the tail as a line of its own)
                 cut = len(raw) - rng.choice([1, 2, 6, 40])
@@ -1169,6 +1183,15 @@ def hidden_only_scenario(rng, name):
 
 
 def gen_cases(prop, tier, seed):
+    global SPLIT_LONG
+    SPLIT_LONG = prop in ("C01", "C02", "C03", "C05", "C06", "C09", "C10", "C11")
+    try:
+        return _gen_cases(prop, tier, seed)
+    finally:
+        SPLIT_LONG = False
+
+
+def _gen_cases(prop, tier, seed):
     rng = core.rng_for(seed, "proto-" + prop)
     quick = tier == "quick"
     cases = []
@@ -1863,7 +1886,11 @@ THEOREMS = {
             "Iauthd.Properties.C06_limits", "Iauthd.Properties.C06_prefix",
             "Iauthd.Properties.C06_password_readers_agree", "Iauthd.Proto.scanModes_spec"],
     "C07": ["Iauthd.Properties.C07_event_frame", "Iauthd.Properties.C07_drop_frame", "Iauthd.Properties.C07_reply_frame",
-            "Iauthd.Properties.C07_announce_frame", "Iauthd.Properties.C07_handler_input", "Iauthd.Proto.withReq_others"],
+            "Iauthd.Properties.C07_announce_frame", "Iauthd.Properties.C07_handler_input", "Iauthd.Proto.withReq_others",
+            "Iauthd.Properties.C07_history", "Iauthd.Properties.C07_history_started", "Iauthd.Properties.C07_history_started_total",
+            "Iauthd.Properties.C07_two_interleavings", "Iauthd.Proto.run07_conv", "Iauthd.Proto.run07_total", "Iauthd.Proto.exec07_rel",
+            "Iauthd.Proto.exec07_foreign", "Iauthd.Proto.reqEvent_rel", "Iauthd.Proto.xqReply_rel", "Iauthd.Proto.reqEvent_keep",
+            "Iauthd.Proto.xqReply_keep", "Iauthd.Proto.stepLine_client", "Iauthd.Proto.dispatch_some", "Iauthd.Proto.start_allConf"],
     "C08": ["Iauthd.Properties.C08_no_fault", "Iauthd.Properties.C08_line_total", "Iauthd.Properties.C08_chunking",
             "Iauthd.Properties.C08_split", "Iauthd.Proto.splitLines_append", "Iauthd.Proto.feedAll_join", "Iauthd.Proto.stepChunk_total",
             "Iauthd.Proto.stepTimeout_total", "Iauthd.Proto.accept_ok", "Iauthd.Proto.gate_ok", "Iauthd.Proto.reqEvent_ok",
@@ -1910,7 +1937,9 @@ def lean_modules(prop):
         ["Iauthd.Proto.Count10", "Iauthd.Properties.C01"] if prop == "C10" else []) + (
         ["Iauthd.Proto.Settle03", "Iauthd.Proto.Settle03H", "Iauthd.Proto.RenderInv", "Iauthd.Proto.RenderStep", "Iauthd.Proto.Render",
          "Iauthd.Proto.RenderHex", "Iauthd.Proto.RenderLines"] if prop == "C03" else []) + (
-        ["Iauthd.Proto.RefInv", "Iauthd.Proto.RefInvH"] if prop == "C04" else []) + ["Iauthd.Properties." + prop]
+        ["Iauthd.Proto.RefInv", "Iauthd.Proto.RefInvH"] if prop == "C04" else []) + (
+        ["Iauthd.Proto.RefInv", "Iauthd.Proto.RefInvH", "Iauthd.Proto.Rel07", "Iauthd.Proto.Keep07", "Iauthd.Proto.Hist07", "Iauthd.Proto.Start07",
+         "Iauthd.Proto.Sim01", "Iauthd.Properties.C10"] if prop == "C07" else []) + ["Iauthd.Properties." + prop]
 
 
 def checker_cmd(prop):
